@@ -499,6 +499,10 @@ func (x *Exec) assumeObjKind(v *Term, t types.Type) {
 		// objects of different struct types are different objects
 		x.addFactRaw(x.tt.Or(x.tt.Eq(v, x.tt.IntLit(0)), x.tt.Eq(x.tt.UF("typeOfObj$", "Int", v), x.tidLit(p.Elem()))))
 	}
+	if x.isMutableTypeName(tn) && !x.embeddedByValue(tn) {
+		// no struct of the package holds a T by value: every *T points to the start of an allocated object
+		x.addFactRaw(x.tt.Or(x.tt.Eq(v, x.tt.IntLit(0)), x.tt.UF("isbase$", "Bool", v)))
+	}
 	isv := x.tt.UF("isval$", "Bool", v)
 	if x.isValidatorTypeName(tn) {
 		x.addFactRaw(x.tt.Or(x.tt.Eq(v, x.tt.IntLit(0)), isv))
@@ -717,4 +721,13 @@ func (x *Exec) objKindFact(v *Term, t types.Type) *Term {
 		}
 	}
 	return tt.And(cs...)
+}
+
+func (x *Exec) embeddedByValue(tn string) bool {
+	for _, ft := range x.faFieldType {
+		if ft == tn {
+			return true
+		}
+	}
+	return false
 }
